@@ -530,3 +530,48 @@ theorem dtw_spec (sqrt : α → α) (w : α → α → α) (dim : Nat) (t1 t2 : 
 
 end whole
 end TV.DTW
+
+namespace TV.DTW
+
+/-- what the `pair` lists say when they are the partners of a coupling `S` of the two tracks: exactly the pairs of `S`,
+nobody left out -/
+theorem rows_pairs {α : Type} (S : List (Nat × Nat)) (n1 n2 : Nat) (rows : List (Row α))
+    (hbp : BackPath S) (hhd : S.head? = some (n2 - 1, n1 - 1)) (h1 : 0 < n1) (h2 : 0 < n2) (hl : rows.length = n1)
+    (hp : ∀ j, j < n1 → (rows[j]?).map (·.pair) = some (partners S.reverse j)) :
+    (∀ s ∈ S, s.1 < n2 ∧ s.2 < n1) ∧
+    (∀ j, j < n1 → ∃ r : Row α, rows[j]? = some r ∧ (∀ i, i ∈ r.pair ↔ (i, j) ∈ S) ∧ r.pair ≠ []) ∧
+    (∀ i, i < n2 → ∃ (j : Nat) (r : Row α), rows[j]? = some r ∧ i ∈ r.pair) := by
+  have hb := backPath_bounds _ _ _ hbp hhd
+  have hc := backPath_covers _ _ _ hbp hhd
+  have hrow : ∀ j, j < n1 → ∃ r : Row α, rows[j]? = some r ∧ (∀ i, i ∈ r.pair ↔ (i, j) ∈ S) := by
+    intro j hj
+    have hpj := hp j hj
+    have hjr : j < rows.length := by omega
+    refine ⟨rows[j], List.getElem?_eq_getElem hjr, ?_⟩
+    rw [List.getElem?_eq_getElem hjr] at hpj
+    simp only [Option.map_some, Option.some.injEq] at hpj
+    intro i
+    rw [hpj]
+    unfold partners
+    simp only [List.mem_map, List.mem_filter, List.mem_reverse, beq_iff_eq]
+    constructor
+    · rintro ⟨⟨a, b⟩, ⟨hm, hb'⟩, ha⟩
+      simp only at hb' ha
+      subst hb'; subst ha; exact hm
+    · intro hm; exact ⟨(i, j), ⟨hm, rfl⟩, rfl⟩
+  refine ⟨fun s hs => by have := hb s hs; omega, ?_, ?_⟩
+  · intro j hj
+    obtain ⟨r, hr, hmem⟩ := hrow j hj
+    refine ⟨r, hr, hmem, ?_⟩
+    obtain ⟨a, ha⟩ := hc.2 j (by omega)
+    intro hnil
+    have := (hmem a).mpr ha
+    rw [hnil] at this
+    simp at this
+  · intro i hi
+    obtain ⟨b, hb'⟩ := hc.1 i (by omega)
+    have hbj : b < n1 := by have := hb _ hb'; simp only at this; omega
+    obtain ⟨r, hr, hmem⟩ := hrow b hbj
+    exact ⟨b, r, hr, (hmem i).mpr hb'⟩
+
+end TV.DTW
